@@ -63,11 +63,11 @@ func TestC13Goldilocks(t *testing.T) {
 	defer vlib.Done()
 	selftest(t)
 	ad := goldilocksAdapter()
-	runAdapter(t, ad, 150, 1500)
+	runAdapter(t, ad, 150, 600)
 	t.Run("goldilocks-api", func(t *testing.T) {
 		var c goldilocks.Curve
 		sub := "grouplaw/goldilocks/api"
-		vlib.Check(t, vlib.N(40, 400), func(t *rapid.T) {
+		vlib.Check(t, vlib.N(40, 160), func(t *rapid.T) {
 			a, _ := drawExp(t, ad, "a")
 			b, rel := drawRelated(t, ad, a, "q")
 			vlib.Eval(sub)
@@ -190,13 +190,13 @@ func TestC13FourQ(t *testing.T) {
 	if ref.R.Cmp(fourq.Params().N) != 0 || ref.F.P.Cmp(fourq.Params().P) != 0 {
 		vlib.ReportDirect(t, "C13/fourq.Params/mismatch", "N or P differ from the FourQ paper", nil)
 	}
-	runAdapter(t, ad, 250, 2500)
+	runAdapter(t, ad, 250, 1000)
 	// any curve point (not only N-torsion): ScalarMult(k, T + a·G) = 392·k·a·G, Add on the whole curve
 	t.Run("fourq-any-point", func(t *testing.T) {
 		tors := fourqTorsion()
 		sub := "grouplaw/fourq/any-curve-point"
 		inv392 := new(big.Int).ModInverse(big.NewInt(392), ref.R)
-		vlib.Check(t, vlib.N(120, 1200), func(t *rapid.T) {
+		vlib.Check(t, vlib.N(120, 480), func(t *rapid.T) {
 			a, pcls := drawExp(t, ad, "a")
 			k, kcls := drawScalar(t, ad, "k")
 			ti := rapid.IntRange(0, len(tors)-1).Draw(t, "torsion")
@@ -314,7 +314,7 @@ func TestC13Ristretto(t *testing.T) {
 	defer vlib.Done()
 	selftest(t)
 	ad := ristrettoAdapter()
-	runAdapter(t, ad, 200, 2000)
+	runAdapter(t, ad, 200, 800)
 	g := group.Ristretto255
 	if got := ad.enc(g.Generator()); got != ad.want(big.NewInt(1)) {
 		vlib.ReportDirect(t, "C13/group.ristretto255.Generator/mismatch", got, nil)
